@@ -264,6 +264,4 @@ def cargo_parse(cargo_ver: str) -> T.Callable[[str], bool]:
                 return False
         return True
 
-    if not out:
-        return lambda v: True
     return compare
